@@ -266,8 +266,23 @@ OOV = ['CN', 'CS', 'CCl', 'CF', 'CB', 'C[N+](C)(C)C', 'CC(=O)[O-]', '[NH4+]', 'c
        '[Pt]', '[Ru]', '[Na+].[Cl-]', 'C[Si](C)(C)C', 'OP(O)(O)=O', 'ClC(Cl)Cl', 'NC(=O)C', 'C[N+](=O)[O-]', '[Au]C']
 
 
+IONS = ['[CH3+]', 'C[CH2+]', 'C[O-]', 'CC(=O)[O-]', 'C[NH3+]', '[OH-]', '[CH2-]C', 'C[C+](C)C', '[O-]CC[O-]', 'C=[OH+]', 'C[OH2+]',
+        'C[CH+]C', '[CH2-]C=C', 'C[O+](C)C', '[O-]C(=O)C[CH2+]', 'C[CH-]C', 'OC[CH2+]', '[CH2+]C[Pt]', 'C[C+]=O']
+POLYCYCLIC = ['C1CCC2CCCC2C1', 'C1CC2CCCC12', 'C1CC12CCC2', 'C1CC2CCC12', 'C1CCC2(C1)CCCCC2', 'C1CC2CC1CCC2', 'C1CC2CCC1C2', 'C1CCC2CC2C1',
+              'C1CC2OC2C1', 'C1=CC2CCCC2C1', 'C1CCC2CCCCC2C1', 'C12CC1C2', 'C1CC2CC3CC1C23', 'OC1CC2CCC1C2', 'C1COC2CCCC2C1', 'c1ccc2CCCc2c1',
+              'C1CC2CCC1[CH]2', '[Pt]C1CC2CCCC12']
+
+
 def special():
     return st.sampled_from(SPECIAL)
+
+
+def ions():
+    return st.sampled_from(IONS)
+
+
+def polycyclic():
+    return st.sampled_from(POLYCYCLIC)
 
 
 def oov():
@@ -282,6 +297,8 @@ def family(name, metal='Pt', max_heavy=12):
         'radical': radical(),
         'adsorbate': adsorbate(metal),
         'special': special(),
+        'ions': ions(),
+        'polycyclic': polycyclic(),
         'oov': oov(),
     }[name]
 
